@@ -206,3 +206,126 @@ def r_pure(prog, R, rid):
                 else:
                     r.ok(k, f.loc(c["ln"]))
     r.require(n >= 8, "fewer than 8 numeric setter arguments found in the record parser")
+
+
+def r_valid(prog, R, rid):
+    """what the parser demands of a character-string field, the writer demands too"""
+    r = R.rule(rid, "the writer refuses what the parser would refuse: a character-string field is written only if it is printable (the parser validates that), and a "
+               "field the parser requires to be non-empty is not written empty -- otherwise a record built through the API serialises but does not parse back", floor=6,
+               analysis="A-TAB sibling agreement of per-key constraints (parser call flags vs writer guards)")
+    WRITE_C = "src/lib/record/ares_dns_write.c"
+    # parser side
+    p_str = prog.func("ares_buf_parse_dns_str", required=False)
+    printable = False
+    if p_str is not None:
+        for b, i, c in p_str.calls():
+            if (c.get("callee") or "").endswith("binstr_int") and c.get("args") and name_of_const(c["args"][-1]) == "ARES_TRUE":
+                printable = True
+    r.info["parser_validates_printable"] = printable
+    pkeys = {}
+    for f in prog.funcs.values():
+        if f.file != PARSE_C:
+            continue
+        for b, i, c in f.calls_to("ares_dns_parse_and_set_dns_str"):
+            key = name_of_const(c["args"][3])
+            blank = name_of_const(c["args"][4])
+            if key:
+                pkeys[key] = {"nonblank": blank == "ARES_FALSE", "printable": printable, "fn": f.name}
+    if not r.require(len(pkeys) >= 6, "fewer than 6 character-string keys found in the parser"):
+        return
+    # writer side: the shared string writer checks printability?
+    wstr = prog.func("ares_dns_write_rr_str", file=WRITE_C)
+    w_print = False
+    for b in wstr.blocks.values():
+        br = wstr.branch(b)
+        if not br:
+            continue
+        for pol in (True, False):
+            tgt = br[1] if pol else br[2]
+            if tgt is None:
+                continue
+            if not any(e2["k"] == "ret" and name_of_const(e2.get("e")) not in (None, "ARES_SUCCESS") for e2 in wstr.blocks[tgt].els):
+                continue
+            for c3, p3 in atoms(br[0], pol):
+                cs = strip(norm_cmp(c3, p3)[1])
+                if cs is not None and cs.get("k") == "call":
+                    full = wstr.call_by_id(cs["id"]) if cs.get("ref") else None
+                    cn = full[2] if full else cs
+                    if cn.get("callee") == "ares_str_isprint" and norm_cmp(c3, p3)[0] in ("false",):
+                        w_print = True
+    for key, pc in sorted(pkeys.items()):
+        writers = [(f, b, i, c) for f in prog.funcs.values() if f.file == WRITE_C for b, i, c in f.calls_to("ares_dns_write_rr_str") if name_of_const(c["args"][2]) == key]
+        if not writers:
+            r.broke("no writer for character-string key %s" % key)
+            continue
+        f, b, i, c = writers[0]
+        k = "key %s: writer enforces the parser's constraints" % key
+        probs = []
+        if pc["printable"] and not w_print:
+            probs.append("the parser accepts only printable characters in this string, the writer emits any byte")
+        if pc["nonblank"]:
+            guarded = False
+            holders = set()
+            for b2, i2, e2 in f.elements():
+                rhs = None
+                if e2["k"] == "asg" and is_var(strip(e2["e"]["l"])):
+                    rhs, nm = e2["e"].get("r"), strip(e2["e"]["l"])["n"]
+                elif e2["k"] == "decl":
+                    for v in e2["vars"]:
+                        if v.get("init") is not None:
+                            rhs, nm = v["init"], v["n"]
+                if rhs is not None:
+                    rr = strip(rhs)
+                    if rr is not None and rr.get("k") == "call":
+                        full = f.call_by_id(rr["id"]) if rr.get("ref") else None
+                        cn = full[2] if full else rr
+                        if cn.get("callee") == "ares_dns_rr_get_str" and name_of_const(cn["args"][1]) == key:
+                            holders.add(nm)
+            for bb in f.blocks.values():
+                br = f.branch(bb)
+                if not br:
+                    continue
+                for pol in (True, False):
+                    tgt = br[1] if pol else br[2]
+                    if tgt is None or not any(e2["k"] == "ret" and name_of_const(e2.get("e")) not in (None, "ARES_SUCCESS") for e2 in f.blocks[tgt].els):
+                        continue
+                    for c3, p3 in atoms(br[0], pol):
+                        op, l3, r3 = norm_cmp(c3, p3)
+                        ls = strip(l3)
+                        if ls is not None and ls.get("k") == "call":
+                            full = f.call_by_id(ls["id"]) if ls.get("ref") else None
+                            cn = full[2] if full else ls
+                            if cn.get("callee") == "ares_strlen" and is_var(strip(cn["args"][0])) and strip(cn["args"][0])["n"] in holders and ((op == "==" and r3 is not None and const_val(r3) == 0) or op == "false"):
+                                guarded = True
+            if not guarded:
+                probs.append("the parser rejects an empty string here, %s writes one" % f.name)
+        if probs:
+            r.viol(k, f.name, f.loc(c["ln"]), "; ".join(probs) + ": a record set up through the API is serialised successfully but the bytes do not parse back")
+        else:
+            r.ok(k, f.loc(c["ln"]))
+
+
+def r_rcode(prog, R, rid):
+    r = R.rule(rid, "a header value the wire form cannot carry makes the write fail; it is never silently replaced by another value", floor=1,
+               analysis="def-use: constants substituted into the header word")
+    f = prog.func("ares_dns_write_header", required=False)
+    if not r.require(f is not None, "ares_dns_write_header not found"):
+        return
+    # locals or'ed into the word that is appended
+    feeds = set()
+    for b, i, el in f.elements():
+        if el["k"] == "asg" and el["e"]["op"] == "|=" and is_var(strip(el["e"]["l"])) and is_var(strip(el["e"].get("r"))):
+            feeds.add(strip(el["e"]["r"])["n"])
+    n = 0
+    for v in sorted(feeds):
+        subs = [(b, i, el) for b, i, el in f.elements() if el["k"] == "asg" and el["e"]["op"] == "=" and is_var(strip(el["e"]["l"]), v) and strip(el["e"].get("r")) is not None
+                and strip(el["e"]["r"]).get("k") == "enum"]
+        n += 1
+        k = "%s above 15 needs an OPT RR" % v if v == "rcode" else "header part %s written as stored" % v
+        if subs:
+            b, i, el = subs[0]
+            r.viol(k, f.name, f.loc(el), "ares_dns_write_header writes %s instead of the record's %s when the value does not fit the header (no OPT RR to carry the upper bits): the message is serialised successfully but parses back with a different %s" % (
+                render(el["e"]["r"]), v, v))
+        else:
+            r.ok(k, f.loc(f.ln))
+    r.require(n >= 1, "ares_dns_write_header: no header part found")
